@@ -710,4 +710,117 @@ def loadDataset2D (T : Tables) (cfg : Config2D) : Except Err (List Frame2D) :=
   if T.samples.isEmpty then .error "DatasetLoadingError"
   else loadFrom2D T cfg 0 T.samples
 
+/-! ## audit round 2: velocities as PYTHON computes them when the two sample times coincide
+
+`velocityOf` above ends in `d.divBy (tl - tf)` with Lean's total division (`x / 0 = 0`).  Python divides a numpy
+array by the float `time_diff`: for `time_diff = 0.0` the result is, component by component, `inf` / `-inf` (sign of
+the displacement component) or `nan` (component 0) — a `RuntimeWarning`, no exception; `0 <= max_time_diff` always
+passes the bound.  `velocityPy` makes that outcome explicit; `Vel.leanView` maps it back to what `velocityOf` answers
+(`velocityOf_eq_leanView`, for all tables).  The two agree wherever `tl ≠ tf`. -/
+
+/-- a velocity estimate as Python computes it -/
+inductive Vel where
+  /-- no estimate: `None` (`_get_box_velocity`) / the all-`nan` vector (`box_velocity`) -/
+  | none
+  /-- the displacement divided by a non-zero time difference -/
+  | finite (v : Vec3)
+  /-- time difference exactly 0: numpy's `d / 0.0`, carried as the displacement `d` (see `Comp.ofRat`) -/
+  | div0 (d : Vec3)
+deriving DecidableEq, Repr, Inhabited
+
+/-- one component of numpy's `d / 0.0` -/
+inductive Comp where
+  | posInf | negInf | nan
+deriving DecidableEq, Repr
+
+def Comp.ofRat (c : Rat) : Comp := if 0 < c then .posInf else if c < 0 then .negInf else .nan
+
+/-- the three float components Python returns for `Vel.div0 d` -/
+def Vel.div0Comps (d : Vec3) : List Comp := [Comp.ofRat d.x, Comp.ofRat d.y, Comp.ofRat d.z]
+
+/-- what the total-division model `velocityOf` answers for a Python outcome -/
+def Vel.leanView : Vel → Option Vec3
+  | .none => Option.none
+  | .finite v => some v
+  | .div0 d => some (d.divBy 0)
+
+/-- the estimate, when it is an ordinary one -/
+def Vel.toOption : Vel → Option Vec3
+  | .finite v => some v
+  | _ => Option.none
+
+def Vel.ofOption : Option Vec3 → Vel
+  | some v => .finite v
+  | Option.none => .none
+
+def Vel.isDiv0 : Vel → Bool
+  | .div0 _ => true
+  | _ => false
+
+/-- `_get_box_velocity` (`objectFrame = true`) / `NuScenes.box_velocity` (`false`) with Python's outcome for a zero time
+difference made explicit; everything else exactly as `velocityOf` -/
+def velocityPy (T : Tables) (objectFrame : Bool) (cur : Annotation) : Except Err Vel :=
+  if cur.prev == "" && cur.next == "" then .ok .none
+  else
+    match (if cur.prev == "" then .ok cur else lookup Annotation.token T.annotations cur.prev) with
+    | .error e => .error e
+    | .ok first =>
+      match (if cur.next == "" then .ok cur else lookup Annotation.token T.annotations cur.next) with
+      | .error e => .error e
+      | .ok last =>
+        match secsOf T last.sampleToken with
+        | .error e => .error e
+        | .ok tl =>
+          match secsOf T first.sampleToken with
+          | .error e => .error e
+          | .ok tf =>
+            let d := last.translation.sub first.translation
+            let d := if objectFrame then rotate first.rotation.conj d else d
+            .ok (if tl - tf ≤ maxTimeDiff cur then
+                   (if tl - tf = 0 then .div0 d else .finite (d.divBy (tl - tf)))
+                 else .none)
+
+/-- what the nuScenes schema says about the `prev` / `next` links of `sample_annotation` ("the annotation of the same
+instance that precedes / follows this in time"): the linked record lies in a sample with a strictly earlier / later
+time.  Not part of `WellFormed` (referential integrity); the velocity theorems that exclude the `div0` outcome carry it
+as a hypothesis. -/
+structure TimeOrdered (T : Tables) : Prop where
+  prev_earlier : ∀ a ∈ T.annotations, a.prev ≠ "" → ∀ b, lookup Annotation.token T.annotations a.prev = .ok b →
+    ∀ ta tb, secsOf T a.sampleToken = .ok ta → secsOf T b.sampleToken = .ok tb → tb < ta
+  next_later : ∀ a ∈ T.annotations, a.next ≠ "" → ∀ b, lookup Annotation.token T.annotations a.next = .ok b →
+    ∀ ta tb, secsOf T a.sampleToken = .ok ta → secsOf T b.sampleToken = .ok tb → ta < tb
+
+/-- the decidable form of `TimeOrdered` used for concrete tables -/
+def timeOrderedB (T : Tables) : Bool :=
+  T.annotations.all fun a =>
+    (a.prev == "" ||
+      match lookup Annotation.token T.annotations a.prev, secsOf T a.sampleToken with
+      | .ok b, .ok ta => (match secsOf T b.sampleToken with | .ok tb => decide (tb < ta) | .error _ => true)
+      | _, _ => true) &&
+    (a.next == "" ||
+      match lookup Annotation.token T.annotations a.next, secsOf T a.sampleToken with
+      | .ok b, .ok ta => (match secsOf T b.sampleToken with | .ok tb => decide (ta < tb) | .error _ => true)
+      | _, _ => true)
+
+/-! ## audit round 2: non-unit quaternions (C16-3)
+
+`rotate` / `moveInv` / `applyPose` above use the homogeneous rotation-matrix formula and the conjugate; they are what
+pyquaternion / the devkit compute on UNIT quaternions (which is what pose tables hold, and what the generated datasets
+contain).  On a non-unit quaternion pyquaternion normalises first (`rotation_matrix` calls `_normalise()`), so the
+rotation applied is `R(q/|q|) = homogeneous(q) / |q|²` — exact over ℚ.  The normalising variants below model that; the
+orientation is kept as the un-normalised product (the same rotation: a positive multiple).  They are NOT used by
+`loadDataset` (kept as built); `Lemmas/DatasetVelocity.lean` proves they coincide with the plain ones on unit
+quaternions and that the round trip holds for every non-zero quaternion. -/
+
+/-- `Quaternion(q).rotation_matrix · v` for any non-zero `q` -/
+def rotateN (q : Quat) (v : Vec3) : Vec3 := (rotate q v).divBy q.normSq
+
+/-- `box.translate(-t); box.rotate(Quaternion(q).inverse)` for any non-zero `q` -/
+def moveInvN (t : Vec3) (q : Quat) (p : Pose) : Pose :=
+  ⟨rotateN q.conj (p.pos.sub t), q.conj.mul p.rot⟩
+
+/-- `HomogeneousMatrix(pos, rot).transform(position, rotation)` for any non-zero `rot` -/
+def applyPoseN (t : Pose) (p : Pose) : Pose :=
+  ⟨(rotateN t.rot p.pos).add t.pos, t.rot.mul p.rot⟩
+
 end PEval.Dataset
